@@ -4,12 +4,15 @@ import os
 
 VERIF = os.path.dirname(os.path.dirname(os.path.abspath(__file__)))
 
-LEDGER_TECH = ("TLA+ spec Rp2Ledger model-checked with TLC (MC_Ledger over Gen_Hist slices); TLC-generated histories replayed into rp2's "
-               "compute_tax; every recorded execution validated by TLC against the spec (Trace_Ledger, total verdicts per clause)")
+LEDGER_TECH = ("TLA+ spec Rp2Ledger model-checked with TLC (MC_Ledger over Gen_Hist slices; for C01/C02/C09 also Rp2Engine, the matching algorithm as implemented, "
+               "with its output compared to rp2's); TLC-generated histories replayed into rp2's compute_tax and into the entry points (method from -m / config schedule, "
+               "window, -n, spreadsheet input); every recorded execution validated by TLC against the spec (Trace_Ledger, total verdicts per clause; for C05-C07 also the "
+               "written reports against Rp2Docs via Trace_Docs)")
 LEDGER_NOTE = ("Trusted: the abstraction alpha from rp2's decimals to lattice integers (exact fractions, 1e-15 relative), the concretiser "
                "(timestamps via Python datetime), TLC, the calendar table in the spec. Exhaustive only inside the slice alphabets/depths "
-               "named in the evidence file; larger histories by TLC simulation. API level: transactions are handed to rp2 as objects "
-               "(the spreadsheet path is covered by C11/C12).")
+               "named in the evidence file; larger histories by TLC simulation. Most runs are API level (transactions handed to rp2 as objects); "
+               "a smaller batch goes end to end through the entry points, with the ComputedData captured inside the child process by a wrapper the harness installs. "
+               "Known finding D8 (to-date cut under mixed UTC offsets) is identified as a class by the specification and printed as KNOWN-FINDING by C10.")
 
 CHECKS = {
     "C01": ("model_checking", "Every fraction of every real run is judged by TLC against the set of best-ranked available lots (clause C01.lot_is_best_ranked_available, "
